@@ -56,12 +56,17 @@ func init() {
 		{"fail+passdoubledash", flags.PassDoubleDash, ref.NoHandler},
 		{"ignore+passafternonoption", flags.IgnoreUnknown | flags.PassAfterNonOption, ref.NoHandler},
 		{"fail+helpflag", flags.HelpFlag, ref.NoHandler}, // a help request behind an unknown option does not rescue it
+		{"ignore+handler", flags.IgnoreUnknown, ref.HandlerDropNext}, // both configured: IgnoreUnknown decides, the handler is not consulted
 	}
 	decls := map[flags.Options]*decl.Decl{}
 	body := func(c *explore.Ctx) {
-		pi := c.Choose(len(policies) + 1)
+		pi := c.Choose(len(policies) + 2)
 		if pi == len(policies) {
 			c07Excluded(c, []flags.Options{flags.None, flags.IgnoreUnknown, flags.PassDoubleDash}[c.Choose(3)])
+			return
+		}
+		if pi == len(policies)+1 {
+			c07Namespaces(c)
 			return
 		}
 		pol := policies[pi]
@@ -139,6 +144,9 @@ func init() {
 			c.Hit("unknown-rejected")
 			if !strings.Contains(fe.Message, res.Fault.Names[0]) {
 				c.Fail("unknown-option-not-named", map[string]interface{}{"message": fe.Message, "name": res.Fault.Names[0]})
+			} else if !strings.Contains(fe.Message, "`"+res.Fault.Names[0]+"'") {
+				// the message quotes the name that is not defined: for a cluster that is the letter, not the cluster around it
+				c.Fail("unknown-option-misnamed|"+c07Class(res.Fault.Token), map[string]interface{}{"message": fe.Message, "undefined_name": res.Fault.Names[0]})
 			}
 			return
 		case gotUnknown:
@@ -147,6 +155,10 @@ func init() {
 		}
 		// handler observations: same calls, in order, with the same arguments
 		if pol.handler != ref.NoHandler {
+			if pol.opts&flags.IgnoreUnknown != 0 && len(rr.HandlerCalls) > 0 {
+				c.Fail("handler-consulted-although-ignoring|"+pol.name, map[string]interface{}{"calls": len(rr.HandlerCalls)})
+				return
+			}
 			if len(res.HandlerCalls) > 0 {
 				c.Hit("handler-called")
 			}
@@ -199,10 +211,10 @@ func init() {
 		Level:      "model_checking",
 		ShardDepth: 5,
 		Body:       body,
-		Rule: "declaration with case-sensitive, namespaced and non-ASCII names and options that exist only in sibling / deeper commands; 10 policies (fail, fail+PassDoubleDash, fail+HelpFlag (with --help among the tokens), IgnoreUnknown, IgnoreUnknown+PassAfterNonOption, handler returning the arguments unchanged / dropping the next / consuming all of them (nil slice) / " +
+		Rule: "declaration with case-sensitive, namespaced and non-ASCII names and options that exist only in sibling / deeper commands; 11 policies (fail, fail+PassDoubleDash, fail+HelpFlag (with --help among the tokens), IgnoreUnknown, IgnoreUnknown+PassAfterNonOption, IgnoreUnknown together with a handler (which is then not consulted), handler returning the arguments unchanged / dropping the next / consuming all of them (nil slice) / " +
 			"inserting a token / returning an error) x {tags, API} x {fresh parser, parser that already parsed a vector selecting add/deep, selecting rm} x every sequence of <= 4 units (3 for the API build, the reused-parser and the argument-rewriting handler variants; thorough: one more for the fail and IgnoreUnknown policies, 4 for the rest) over 12 valid tokens and 24 near misses (incl. the bare namespace prefix of a group whose option has only a short name) (case flips, names containing % or a NUL character, an unknown -<digits> token while an int positional is pending, prefixes, one character dropped/added/changed, " +
-			"namespace missing/doubled/case-changed, unknown character at either end of a cluster, two unknown characters in one cluster, inline arguments, a neighbouring non-ASCII letter); beside that: options of a struct field excluded with no-flag and an option name prefixed with the parser's own Namespace are unknown; oracle = CLM scope tables and handler call log",
-		Assumptions:  []string{"the name passed to the handler for a multi-character cluster is not asserted beyond: it mentions every character of the cluster, from the first unknown one on, that names no option in scope", "values of flags that precede an unknown character inside one cluster are not asserted"},
+			"namespace missing/doubled/case-changed, unknown character at either end of a cluster, two unknown characters in one cluster, inline arguments, a neighbouring non-ASCII letter); beside that: options of a struct field excluded with no-flag and an option name prefixed with the parser's own Namespace are unknown; namespaces set on the parser and on commands (all 8 subsets of {parser, command, sub-subcommand} carrying one) x 3 command paths x 4 options x all 16 prefix spellings over {app, ad, dp, g} x {fail, IgnoreUnknown}: exactly the spelling with the namespaces of all enclosing commands and groups is defined; oracle = CLM scope tables and handler call log",
+		Assumptions:  []string{"the ErrUnknownFlag message quotes (`name') exactly the undefined name; for a cluster that is the first letter naming nothing", "the name passed to the handler for a multi-character cluster is not asserted beyond: it mentions every character of the cluster, from the first unknown one on, that names no option in scope", "values of flags that precede an unknown character inside one cluster are not asserted"},
 		RequiredHits: []string{"unknown-rejected", "handler-called", "continued-after-unknown", "after-earlier-parse"},
 		Bound:        [2]string{"unit sequences <= 4", "unit sequences <= 5"},
 		BudgetS:      [2]int{170, 1500},
@@ -261,6 +273,121 @@ func c07Excluded(c *explore.Ctx, opts flags.Options) {
 	default:
 		if fe == nil || fe.Type != flags.ErrUnknownFlag {
 			c.Fail("unknown-option-accepted|excluded|"+tok, map[string]interface{}{"error": fmt.Sprint(err), "rest": rest})
+		}
+	}
+}
+
+// c07Namespaces: a namespace set on the parser or on a command prefixes the long names of everything below it, across
+// command boundaries; every other spelling of the name is unknown.
+func c07Namespaces(c *explore.Ctx) {
+	type deepT struct {
+		Depth int `long:"depth"`
+	}
+	type addT struct {
+		Force bool `long:"force"`
+		G     struct {
+			Opt string `long:"opt"`
+		} `group:"G" namespace:"g"`
+	}
+	type topT struct {
+		Verbose bool `long:"verbose"`
+	}
+	mask := c.Choose(8)
+	pathI := c.Choose(3)
+	optI := c.Choose(4)
+	spelled := c.Choose(16)
+	ignore := c.Bool()
+	var top topT
+	var add addT
+	var deep deepT
+	opts := flags.None
+	if ignore {
+		opts = flags.IgnoreUnknown
+	}
+	p := flags.NewNamedParser("app", opts)
+	p.SubcommandsOptional = true
+	if _, err := p.AddGroup("Top", "", &top); err != nil {
+		c.Fail("setup-error", err.Error())
+		return
+	}
+	ca, err := p.AddCommand("add", "", "", &add)
+	if err != nil {
+		c.Fail("setup-error", err.Error())
+		return
+	}
+	ca.SubcommandsOptional = true
+	cd, err := ca.AddCommand("deep", "", "", &deep)
+	if err != nil {
+		c.Fail("setup-error", err.Error())
+		return
+	}
+	var nsP, nsA, nsD []string
+	if mask&1 != 0 {
+		p.Namespace = "app"
+		nsP = []string{"app"}
+	}
+	if mask&2 != 0 {
+		ca.Namespace = "ad"
+		nsA = []string{"ad"}
+	}
+	if mask&4 != 0 {
+		cd.Namespace = "dp"
+		nsD = []string{"dp"}
+	}
+	cat := func(parts ...[]string) []string {
+		var out []string
+		for _, x := range parts {
+			out = append(out, x...)
+		}
+		return out
+	}
+	name := []string{"verbose", "force", "opt", "depth"}[optI]
+	want := [][]string{nsP, cat(nsP, nsA), cat(nsP, nsA, []string{"g"}), cat(nsP, nsA, nsD)}[optI]
+	inScope := [][]bool{{true, false, false, false}, {true, true, true, false}, {true, true, true, true}}[pathI][optI]
+	var given []string
+	for i, w := range []string{"app", "ad", "dp", "g"} {
+		if spelled&(1<<uint(i)) != 0 {
+			given = append(given, w)
+		}
+	}
+	tok := "--" + strings.Join(append(append([]string{}, given...), name), ".")
+	if optI >= 2 {
+		tok += "=1"
+	}
+	argv := append(append([]string{}, [][]string{nil, {"add"}, {"add", "deep"}}[pathI]...), tok, "w")
+	defined := inScope && sameStrings(given, want)
+	c.Describe(func() interface{} {
+		return map[string]interface{}{"scenario": "namespaces on the parser and on commands", "parser.Namespace": strings.Join(nsP, ""), "add.Namespace": strings.Join(nsA, ""), "deep.Namespace": strings.Join(nsD, ""),
+			"group_G_of_add": "namespace g", "argv": argv, "IgnoreUnknown": ignore, "name_is_defined_here": defined}
+	})
+	var rest []string
+	func() {
+		defer func() {
+			if r := recover(); r != nil {
+				c.Fail("panic|"+explore.PanicSite(), fmt.Sprint(r))
+			}
+		}()
+		rest, err = p.ParseArgs(argv)
+	}()
+	if c.Failed() {
+		return
+	}
+	c.Hit("command-namespaces")
+	set := []bool{top.Verbose, add.Force, add.G.Opt != "", deep.Depth != 0}[optI]
+	fe, _ := err.(*flags.Error)
+	c.Outcome("namespaces", errType(err), fmt.Sprint(defined), fmt.Sprint(set))
+	switch {
+	case defined:
+		if err != nil || !set || !sameStrings(rest, []string{"w"}) {
+			c.Fail("known-option-reported-unknown|command-namespace", map[string]interface{}{"error": fmt.Sprint(err), "rest": rest, "stored": set})
+		}
+	case ignore:
+		if err != nil || set || !sameStrings(rest, []string{tok, "w"}) {
+			c.Fail("unknown-option-accepted|ignore|namespace-spelling", map[string]interface{}{"error": fmt.Sprint(err), "rest": rest, "stored": set})
+		}
+	default:
+		if fe == nil || fe.Type != flags.ErrUnknownFlag || set {
+			c.Fail("unknown-option-accepted|fail|namespace-spelling", map[string]interface{}{"error": fmt.Sprint(err), "rest": rest, "stored": set})
 		}
 	}
 }
